@@ -51,16 +51,20 @@ var sec = int64(1_000_000_000)
 var perts = []pert{
 	{"nonce", []int64{1, -1}},
 	{"cname", nil}, {"cname-extra", nil}, {"cname-regroup", nil}, {"crealm", nil},
-	{"sealed-sname", nil}, {"sealed-srealm", nil}, {"ticket-realm", nil},
+	{"sealed-sname", nil}, {"sealed-srealm", nil}, {"ticket-realm", nil}, {"ticket-sname", nil},
 	{"caddr-added", nil}, {"caddr-dropped", nil},
 	{"authtime", []int64{-301 * sec, 301 * sec, -300 * sec, 300 * sec, -299 * sec, 299 * sec, -3600 * sec, 86400 * sec}},
 	{"authtime-year", []int64{9999, 2400, 2293, 1970, 1700}},
+	{"starttime", []int64{-301 * sec, 301 * sec, -300 * sec, 300 * sec, -299 * sec, 299 * sec, -3600 * sec, 86400 * sec}},
 	{"other-key", nil},
 	{"other-usage", []int64{3, 8, 9, 2}},
 	{"enc-tag", []int64{25, 26, 3}},
 	{"msg-type", []int64{11, 13}},
 	{"enc-flip", []int64{0, 1, -1, -8, -12, -13, -16, -17, -20, -21, -24, -25}}, {"enc-trunc", []int64{0, 1, 8, 12}}, {"enc-extend", nil},
 }
+
+// isTimeKind: perturbations of the KDC's time stamps (authtime moves starttime along in TGS replies).
+func isTimeKind(k string) bool { return strings.HasPrefix(k, "authtime") || k == "starttime" }
 
 type single struct {
 	p      *refkdc.Perturb
@@ -98,7 +102,7 @@ func Meta() core.Meta {
 	q := ns*len(etypes)*len(exchanges) + 2*maxCode + 2*2*len(viaTCPCodes)
 	return core.Meta{
 		Engine: "c09", Property: "C09", Level: "fault_enumeration",
-		Rule:       "case = one run: a real client (keytab or password credential, one etype) performs an AS exchange, a TGS exchange or a referral chain against the reference KDC while exactly one reply is perturbed: a sealed or outer field changed (nonce +-1, cname, crealm, sname, srealm, ticket realm, addresses, authtime/starttime at and beyond the skew bound), sealed under another key / key usage / tag, ciphertext damaged, truncated, duplicated, replaced by the reply to the previous request, or replaced by a KRB-ERROR with each code 1..93; sweep = every single perturbation x 6 etypes x 3 exchanges + every error code x {AS,TGS} (quick: keytab without and password with pre-authentication; thorough: two more credential/flow combinations); seeded runs add a second perturbation, hint layouts, transports and salts; distinct = distinct (exchange, flow, credential, etype, perturbations, outcome); non-trivial = a perturbation or network fault took effect",
+		Rule:       "case = one run: a real client (keytab or password credential, one etype) performs an AS exchange, a TGS exchange or a referral chain against the reference KDC while exactly one reply is perturbed: a sealed or outer field changed (nonce +-1, cname, crealm, sname, srealm, ticket realm and ticket sname, addresses, authtime and starttime - together and starttime alone - at and beyond the skew bound), sealed under another key / key usage / tag, ciphertext damaged, truncated, duplicated, replaced by the reply to the previous request, or replaced by a KRB-ERROR with each code 1..93; sweep = every single perturbation x 6 etypes x 3 exchanges + every error code x {AS,TGS} (quick: keytab without and password with pre-authentication; thorough: two more credential/flow combinations); seeded runs add a second perturbation, hint layouts, transports and salts; distinct = distinct (exchange, flow, credential, etype, perturbations, outcome); non-trivial = a perturbation or network fault took effect",
 		SweepQuick: q * 2, SweepThorough: q * 4,
 		SeededQuick: 1500, SeededThorough: 100000,
 		WorkloadProbes: []string{"perturbed-reply-delivered", "krb-error-delivered", "stale-reply-delivered", "truncated-reply-delivered", "addresses-requested", "preauth-round-trip", "referral-followed", "honest-exchange"},
@@ -220,7 +224,7 @@ func Gen(caseID, tier string) (json.RawMessage, error) {
 				// extended by one byte and cut by one byte)
 				dup = dup || q.Kind == s.p.Kind || (strings.HasPrefix(q.Kind, "caddr") && strings.HasPrefix(s.p.Kind, "caddr")) ||
 					(strings.HasPrefix(q.Kind, "enc-") && strings.HasPrefix(s.p.Kind, "enc-")) ||
-					(strings.HasPrefix(q.Kind, "authtime") && strings.HasPrefix(s.p.Kind, "authtime"))
+					(isTimeKind(q.Kind) && isTimeKind(s.p.Kind))
 			}
 			if dup {
 				continue
